@@ -523,15 +523,40 @@ theorem C03.rowNorm2SqrScaled_bcsr {α : Type} [CommRing α] (A : Bcsr α) (sc :
         sc.getD (A.bw * p.1 + j) 0 * (p.2.getD (i * A.bw + j) 0 * p.2.getD (i * A.bw + j) 0)).sum).sum :=
   bcsrRowNorm2SqrScaled_eq A sc
 
-/-- `extract_diag` (BCSR): a matrix with different block-row and block-column counts is reported; otherwise scalar row
-    `row·bh + i` gets element `(i, i)` of the diagonal block found by the search of `C03.diagIndex_spec`, 0 without one.
-    For `bh > bw` the position `i·bw + i` leaves the block: there the real code reads out of range (KNOWN_FINDINGS
-    c03-edge:F4) and the model is not compared. -/
+/-- `extract_diag` (BCSR): a matrix with different block-row and block-column counts *or non-square blocks* is
+    reported (the scalar matrix is then not square: no main diagonal; /repo fix 214562810, formerly KNOWN_FINDINGS
+    c03-edge:F4: for `bh > bw` the position `i·bw + i` left the block); otherwise scalar row `row·bh + i` gets element
+    `(i, i)` of the diagonal block found by the search of `C03.diagIndex_spec`, 0 without one. -/
 theorem C03.extractDiag_bcsr {α : Type} [Zero α] (A : Bcsr α) :
-    (A.rows ≠ A.cols → bcsrExtractDiag A = .error .dims) ∧
-    (A.rows = A.cols → bcsrExtractDiag A = .ok ((bcsrDiagIndices A).flatMap fun k => (List.range A.bh).map fun i =>
+    ((A.rows ≠ A.cols ∨ A.bh ≠ A.bw) → bcsrExtractDiag A = .error .dims) ∧
+    (A.rows = A.cols → A.bh = A.bw →
+      bcsrExtractDiag A = .ok ((bcsrDiagIndices A).flatMap fun k => (List.range A.bh).map fun i =>
       if k != A.usedElements then A.val.getD (k * A.bh * A.bw + i * A.bw + i) 0 else 0)) := by
-  constructor <;> intro h <;> simp [bcsrExtractDiag, h]
+  constructor
+  · intro h
+    by_cases h1 : A.rows = A.cols
+    · rcases h with h | h
+      · exact absurd h1 h
+      · simp [bcsrExtractDiag, h1, h]
+    · simp [bcsrExtractDiag, h1]
+  · intro h1 h2
+    simp [bcsrExtractDiag, h1, h2]
+
+/-- every position read by a successful `extract_diag` lies inside its block: `i·bw + i < bh·bw` -/
+theorem C03.extractDiag_bcsr_in_block {α : Type} [Zero α] (A : Bcsr α) (l : List α)
+    (h : bcsrExtractDiag A = .ok l) : ∀ i, i < A.bh → i * A.bw + i < A.bh * A.bw := by
+  have hb : A.bh = A.bw := by
+    unfold bcsrExtractDiag at h
+    by_cases h1 : A.rows = A.cols
+    · by_cases h2 : A.bh = A.bw
+      · exact h2
+      · simp [h1, h2] at h
+    · simp [h1] at h
+  intro i hi
+  rw [← hb]
+  calc i * A.bh + i < i * A.bh + A.bh := by omega
+    _ = (i + 1) * A.bh := by rw [Nat.add_mul, Nat.one_mul]
+    _ ≤ A.bh * A.bh := Nat.mul_le_mul_right _ hi
 
 /-! ## the vector kernels on the value array (shared with C04): axpy, scale, Frobenius norm, extreme elements -/
 
